@@ -19,6 +19,7 @@ DATA = {
     "dup": [["1", "a", "red"], ["1", "b", "green"], ["3", "c", "blue"]],
     "many": [["1", "a", "blue"], ["2", "b", "red"], ["3", "c", "green"], ["4", "d", "blue"]],
     "other": [["2", "x", "blue"], ["5", "y", "green"]],
+    "empty": [],  # no row at all: nothing in the run itself triggers per-row work, so only what is done up front separates it from the run before
     # a value outside the choices, a character outside the allowed characters, then rows using the last declared choice and the same character again
     "bad": [["-1", "a", "red"], ["6", "a", "black"], ["7", "\xfc", "red"], ["8", "b", "blue"], ["9", "\xfc", "blue"], ["10", "", "red"], ["11", "", "green"], ["12", "ab", "red"], ["-2", "b", "red"]],  # an empty name, twice; ids outside their multi-part range at the start and at the end (the messages quote the range)
 }
@@ -314,6 +315,10 @@ OPS = {
     "write_with_dup": (op_write_with, ("dup",)),
     "app_clean": (op_app, ("clean",)),
     "app_dup": (op_app, ("dup",)),
+    "read_empty": (op_read, ("empty", "raise")),
+    "validate_empty": (op_validate, ("empty",)),
+    "write_empty_close": (op_write, ("empty", True)),
+    "app_empty": (op_app, ("empty",)),
 }
 _FRESH = {}
 
